@@ -10,7 +10,7 @@ from ..terms import A, C, F, V, call, conj, TRUE, CUT, show_program, show_term
 
 ID = 'C08'
 LEVEL = 'model_checking'
-RULE = ('every history of depth <= D over 26 events (load of a script S9 that defines predicates named like API functions; load of a self-recursive predicate S7 whose base case comes from another script S8 or from a dynamic fact; 17 + start / step / close of a call p(X) that stays suspended across the other events and must keep the resolution it had when it was made), from the empty engine and from 4 non-initial states (combined definitions, a Python predicate plus a script, facts between two loads, the recursive script), plus a 12-event core one step deeper, plus the full alphabet from the empty engine with every script loaded through load_script_from_file from ONE path that is rewritten before each load, plus the full alphabet (from the state Python p/1 + S1) with every Python predicate registered as a callable OBJECT that is false in a boolean context, plus the full alphabet from the empty engine in a process that turns warnings into errors: register_function for p with inferred / explicit (p/2) / variadic '
+RULE = ('every history of depth <= D over 26 events (load of a script S9 that defines predicates named like API functions; load of a self-recursive predicate S7 whose base case comes from another script S8 or from a dynamic fact; 17 + start / step / close of a call p(X) that stays suspended across the other events and must keep the resolution it had when it was made), from the empty engine and from 4 non-initial states (combined definitions, a Python predicate plus a script, facts between two loads, the recursive script), plus a 12-event core one step deeper, plus the full alphabet from the empty engine with every script loaded through load_script_from_file from ONE path that is rewritten before each load, plus the full alphabet (from the state Python p/1 + S1) with every Python predicate registered as a callable OBJECT that is false in a boolean context, plus the full alphabet with the suspended call made as a META-call (call(p(X)) from the empty engine, call(p, X) from the state with facts between two loads) - resolved when made like any call, plus the full alphabet from the empty engine in a process that turns warnings into errors: register_function for p with inferred / explicit (p/2) / variadic '
         'arity and for q/1; (plus the ORDER family: 0..2 facts x 4 shapes of definition - generator function, plain function returning an iterator, plain function returning a generator, callable object - x 5 effects of calling it x 3 registrations x 3 ways of asking x 3 ways of consuming x bound/unbound argument: the facts are answered before the definition is started, a call closed after a fact answer never starts it) load of script S1 (p/1 facts), S2 (p/1 with a cut in its first clause), S3 (p/2 and q(X) :- '
         'p(X)), S6 (names that collide with context keys: once_1/0, once_1/1, p_n/1, call_n/0, foo_1/0 next to foo/1) each '
         'with overwrite on and off; load of a text that is not Python (S4) and of a text that defines p_1 and q_1 and then '
@@ -147,6 +147,7 @@ def py_model(name, n):
 # how scripts reach the engine: load_script_from_string, or load_script_from_file with every script
 # of the whole shard written to ONE path in turn (what a file holds when it is loaded is what counts)
 LOAD_PATH = None
+START_VIA = {'how': 'query'}
 
 
 def _load(yp, text, overwrite):
@@ -267,7 +268,14 @@ def run_history(hist, texts):
                     if ev[0] == 'start':
                         iv = yp.variable()
                         rv = ref.fresh()
-                        slot = (yp.query('p', [iv]), iv, ref.iter_env(('f', 'p', (rv,))), rv)
+                        if START_VIA['how'] == 'call/2':
+                            # the suspended call is a META-call: call(p, X) is resolved like p(X), when it is made
+                            iq = yp.query('call', [yp.atom('p'), iv])
+                        elif START_VIA['how'] == 'call/1':
+                            iq = yp.query('call', [yp.functor('p', [iv])])
+                        else:
+                            iq = yp.query('p', [iv])
+                        slot = (iq, iv, ref.iter_env(('f', 'p', (rv,))), rv)
                     if ev[0] == 'close':
                         slot[0].close()
                         slot[2].close()
@@ -485,6 +493,7 @@ def plan(tier):
     sh += [(d, k, n, 2, 'all-objects') for k in range(n)]
     sh += [(d, k, n, 0, 'all-warnings-are-errors') for k in range(n)]
     sh += [(0, k, 4, 0, 'order') for k in range(4)]
+    sh += [(d, k, n, 3, 'all-call/2') for k in range(n)] + [(d, k, n, 0, 'all-call/1') for k in range(n)]
     return sh
 
 
@@ -506,6 +515,13 @@ def run_shard(spec):
             acc.n['transitions'] += len(r[1]) + 2
             acc.outcome(r[1])
         return acc
+    if spec[4].startswith('all-call'):
+        LOAD_PATH = None
+        START_VIA['how'] = spec[4][4:]
+        try:
+            return _run_shard(spec[:4] + ('all',), via=spec[4][4:])
+        finally:
+            START_VIA['how'] = 'query'
     if spec[4] == 'all-warnings-are-errors':
         # the process runs with warnings turned into errors (python -W error, pytest filterwarnings=error):
         # nothing the engine does on these histories is worth a warning, an unknown predicate simply fails
@@ -563,7 +579,7 @@ def _run_shard(spec, via=None):
             acc.skipped[r[1]] += 1
             continue
         if r[0] == 'violation':
-            acc.violation(({'file': 'file-loads:', 'objects': 'callable-objects:', 'warnings': 'warnings-are-errors:'}.get(via, '')) + r[1], (len(hist), pi, idx), {'hist': list(hist), 'via': via}, r[2], key=(via or '') + str(list(hist)))
+            acc.violation(({'file': 'file-loads:', 'objects': 'callable-objects:', 'warnings': 'warnings-are-errors:', 'call/1': 'suspended-meta-call:', 'call/2': 'suspended-meta-call:'}.get(via, '')) + r[1], (len(hist), pi, idx), {'hist': list(hist), 'via': via}, r[2], key=(via or '') + str(list(hist)))
             continue
         _, states, steps, nontrivial = r
         acc.n['transitions'] += steps
@@ -587,6 +603,13 @@ def replay(case):
             warnings.simplefilter('error')
             r = run_history(tuple(case['hist']), compile_scripts())
         return [('warnings-are-errors:' + r[1], r[2])] if r[0] == 'violation' else []
+    if case.get('via') in ('call/1', 'call/2'):
+        START_VIA['how'] = case['via']
+        try:
+            r = run_history(tuple(case['hist']), compile_scripts())
+        finally:
+            START_VIA['how'] = 'query'
+        return [('suspended-meta-call:' + r[1], r[2])] if r[0] == 'violation' else []
     if case.get('via') == 'objects':
         CALLABLE['shape'] = 'falsy-object'
         try:
